@@ -2,7 +2,7 @@
 
 from ..common import graph_walk, model_walk, run_kinds
 from ..core import AnalysisError
-from ..ir import is_neg_float_max, mk_not, show, subterms
+from ..ir import facts, has_guard, is_neg_float_max, mk_not, show, subterms
 from ..kinds import count_of
 from ..rules_heap import _sub, lin, lin_eq
 from ..rules_ift import Rep
@@ -63,7 +63,7 @@ def check_create_arcs(chk, rep, repo):
     for e in body:
         if e.kind == "call" and e.name in ("builtin.int",):
             continue
-        rep.ev("ARCS-valid", e, any(g == valid and pol for g, pol in e.guards),
+        rep.ev("ARCS-valid", e, has_guard(e.guards, valid),
                "read-out statement not guarded by distances[l] != FLOAT_MAX")
     # accumulators
     accs = {
@@ -79,7 +79,7 @@ def check_create_arcs(chk, rep, repo):
     for name, tgt in accs.items():
         st = [e for e in body if e.kind == "store" and e.target == tgt]
         want_guard = ("cmp", "<", tgt, d_r)
-        ok = len(st) == 1 and st[0].value == d_r and any(g == want_guard and pol for g, pol in st[0].guards)
+        ok = len(st) == 1 and st[0].value == d_r and has_guard(st[0].guards, want_guard)
         rep.fn(f"ARCS-acc", fn, f"{name}: updated to distances[l] when distances[l] > {name}", ok,
                f"{len(st)} update(s) of the {name}; expected `if distances[l] > acc: acc = distances[l]`", line=ro.line)
         # initialisation before accumulation, in this function
@@ -125,7 +125,7 @@ def check_create_arcs(chk, rep, repo):
     dens = ("attr", G, "density")
     fb = [e for e in w.events if e.kind == "store" and e.target == dens and e.seq > sc.per.last_seq]
     okf = len(fb) == 1 and fb[0].value in (("const", 1), ("const", 1.0)) and not fb[0].loops \
-        and fb[0].guards == ((("cmp", "<", dens, ("const", 1e-05)), True),)
+        and facts(fb[0].guards) == (("cmp", "<", dens, ("const", 1e-05)),)
     rep.fn("ARCS-fallback", fn, "density bound falls back to 1 when below 1e-5, after the loops", okf,
            "expected `if self.density < 0.00001: self.density = 1` after all nodes were processed")
     run_kinds(rep, w)
@@ -203,8 +203,8 @@ def check_pdf(chk, rep, repo):
     # min / max tracking
     tr_mn = [e for e in s_mn if e.loops == (per.lid,)]
     tr_mx = [e for e in s_mx if e.loops == (per.lid,)]
-    okmn = len(tr_mn) == 1 and tr_mn[0].value == pi and tr_mn[0].guards == ((("cmp", "<", pi, mn), True),)
-    okmx = len(tr_mx) == 1 and tr_mx[0].value == pi and tr_mx[0].guards == ((("cmp", "<", mx, pi), True),)
+    okmn = len(tr_mn) == 1 and tr_mn[0].value == pi and facts(tr_mn[0].guards) == (("cmp", "<", pi, mn),)
+    okmx = len(tr_mx) == 1 and tr_mx[0].value == pi and facts(tr_mx[0].guards) == (("cmp", "<", mx, pi),)
     late = all(e.seq > divs[0].seq for e in tr_mn + tr_mx) if divs else False
     rep.fn("PDF-minmax", fn, "min_density / max_density track the final pdf value of every node", okmn and okmx and late,
            "expected `if pdf[i] < min: min = pdf[i]` and `if pdf[i] > max: max = pdf[i]` after the division")
@@ -221,8 +221,8 @@ def check_pdf(chk, rep, repo):
         ii = ("iter", li.domain, li.lid) if li else None
         node = ("idx", ("attr", G, "nodes"), ii)
         fulln = li is not None and count_of(li.domain[2][-1]) == G and len(li.domain[2]) == 1 and e.target[1] == node
-        eq_branch = any(g == eq and pol for g, pol in e.guards)
-        ne_branch = any(g == eq and not pol for g, pol in e.guards)
+        eq_branch = has_guard(e.guards, eq)
+        ne_branch = has_guard(e.guards, mk_not(eq))
         fld = e.target[2]
         ok = False
         if fulln and eq_branch:
@@ -278,8 +278,8 @@ def check_eliminate(chk, rep, repo):
         node = ("idx", ("attr", G, "nodes"), i)
         full = count_of(li.domain[2][-1]) == G and len(li.domain[2]) == 1
         want = ("max", tuple(sorted([("bin", "-", ("attr", node, "density"), h), ("const", 0)], key=repr)))
-        guard = (("cmp", "<", ("const", 0), h), True)
-        ok = full and e.target == ("attr", node, "cost") and e.value == want and e.guards == (guard,)
+        guard = ("cmp", "<", ("const", 0), h)
+        ok = full and e.target == ("attr", node, "cost") and e.value == want and facts(e.guards) == (guard,)
     rep.fn("ELIM", fn, "height > 0: cost = max(density - height, 0) for every node; otherwise nothing changes", ok,
            "eliminate_maxima_height must be guarded by height > 0 and clamp density - height at 0")
 
